@@ -29,7 +29,12 @@ def gen(rng):
             'via': rng.choice(['ensure', 'ensure', 'ensure', 'threadsafe']),
             'n': rng.choice([1, 1, 2]),
         })
-    return {'mode': mode, 'callers': callers, 'stop_after': rng.choice([0, D, 4 * D])}
+    dep = mode in ('idle', 'running') and ncall >= 2 and rng.random() < 0.2
+    if dep:
+        # caller 0's awaitable waits for an event that caller 1's awaitable sets (both on the target)
+        callers[0].update(aw='coro', n=1, role='waiter')
+        callers[1].update(aw='coro', n=1, role='setter')
+    return {'mode': mode, 'callers': callers, 'stop_after': rng.choice([0, D, 4 * D]), 'dep': dep}
 
 
 class EnsureHarness:
@@ -56,6 +61,7 @@ class EnsureHarness:
             elif mode == 'closed':
                 target.close()
             done = []
+            dep_event = aio.Event()
 
             def make_body(aid, c, tgt, is_future):
                 async def body():
@@ -63,6 +69,10 @@ class EnsureHarness:
                     emit('body_start', aid, lp is tgt, lp.sim_name, simrt.me().name)
                     if c['dur']:
                         await aio.sleep(c['dur'])
+                    if c.get('role') == 'waiter':
+                        await dep_event.wait()
+                    elif c.get('role') == 'setter':
+                        dep_event.set()
                     if c['out'] == 'raise':
                         if not is_future:
                             emit('aw_done', aid, 'raise')
@@ -207,6 +217,13 @@ class C17(Check):
         st['executions'] += 1
         mode = scen['mode']
         st[f'target_{mode}'] += 1
+        if scen.get('dep'):
+            # awaitables that depend on each other are outside the property's quantifier (they may dead-lock on an
+            # idle target whichever caller's helper holds the loop); they are executed to compare trees, not judged
+            st['dependent_awaitables'] += 1
+            if r.verdict is not None:
+                st['dependent_awaitables_' + r.verdict] += 1
+            return res
         log = r.log
         calls = {e[1]: (i, e) for i, e in enumerate(log) if e[0] == 'call'}
         rets = {e[1]: (i, e) for i, e in enumerate(log) if e[0] == 'ret'}
